@@ -16,6 +16,7 @@ from __future__ import annotations
 
 import itertools
 import math
+import os
 import time
 from fractions import Fraction
 
@@ -39,6 +40,9 @@ class HarnessError(Exception):
 
 class Inconclusive(Exception):
     """Solver said unknown / timeout for an obligation."""
+
+
+_CANARY_MS = int(os.environ.get('VERIF_CANARY_MS', '10000'))     # short per-path attempt of a canary query
 
 
 class PathLimit(HarnessError):
@@ -634,6 +638,8 @@ class SymEnv:
         self.notes = {}
         self.claim_ms = {}
         self._first_failure_t = None
+        self._canary_query = False
+        self._canary_pending = {}
         self.after_failure_s = 45
         self.wall_budget_s = None   # per configuration; the runner sets it (quick 600 s, thorough 4 h)
         self._t_start = None
@@ -707,9 +713,11 @@ class SymEnv:
         # once an obligation of this configuration has been refuted its verdict is settled: hard queries on a broken tree
         # get one short attempt instead of three long ones (never the case on a tree where the property holds)
         broken = bool(self.failures)
-        for attempt, sd in enumerate(seeds[:1 if broken else 3]):
+        # a canary is asked again on every later path until it is refuted once: one short attempt per path is enough
+        quick = broken or self._canary_query
+        for attempt, sd in enumerate(seeds[:1 if quick else 3]):
             s = z3.Solver()
-            s.set("timeout", min(self.timeout_ms, 5000) if broken else self.timeout_ms)
+            s.set("timeout", min(self.timeout_ms, 5000 if broken else _CANARY_MS) if quick else self.timeout_ms)
             if sd:
                 s.set("random_seed", sd)
             for c in self.pc:
@@ -1027,12 +1035,36 @@ class SymEnv:
             refuted = not cond
         else:
             t0 = time.perf_counter()
-            r, _ = self._check(z3.Not(_b(cond)))
+            self._canary_query = True
+            try:
+                r, _ = self._check(z3.Not(_b(cond)))
+            finally:
+                self._canary_query = False
             self.claim_ms['canary:' + name] = self.claim_ms.get('canary:' + name, 0.0) + (time.perf_counter() - t0) * 1000
             refuted = (r == z3.sat)
+            if r == z3.unknown and len(self._canary_pending.setdefault(name, [])) < 4:
+                self._canary_pending[name].append((list(self.pc), z3.Not(_b(cond))))     # asked again with full effort at the end
         if refuted:
             self.stats.canaries_refuted += 1
         self.canary_seen[name] = self.canary_seen.get(name, False) or refuted
+
+    def finish_canaries(self):
+        """canaries whose short per-path attempts all came back unknown get the full procedure (three seeds, full time-out)
+        on the recorded paths before they are reported as 'never refuted'"""
+        for name, pending in self._canary_pending.items():
+            if self.canary_seen.get(name):
+                continue
+            for pc, formula in pending:
+                saved = self.pc
+                self.pc = pc
+                try:
+                    r, _ = self._check_uncached(formula)
+                finally:
+                    self.pc = saved
+                if r == z3.sat:
+                    self.stats.canaries_refuted += 1
+                    self.canary_seen[name] = True
+                    break
 
     def witness(self):
         """reachability witness: the current path condition is satisfiable"""
